@@ -1454,13 +1454,14 @@ func (up4 *UP4) sendUpdate(all PacketForwardingRules, updated PacketForwardingRu
 }
 
 func (up4 *UP4) sendDelete(deleted PacketForwardingRules) error {
+	if err := up4.modifyUP4ForwardingConfiguration(deleted.pdrs, deleted.fars, deleted.qers, p4.Update_DELETE); err != nil {
+		return err
+	}
+
+	// only now are the entries that carry the counter indices gone
 	for i := range deleted.pdrs {
 		up4.releaseCounterID(preQosCounterID,
 			uint64(deleted.pdrs[i].ctrID))
-	}
-
-	if err := up4.modifyUP4ForwardingConfiguration(deleted.pdrs, deleted.fars, deleted.qers, p4.Update_DELETE); err != nil {
-		return err
 	}
 
 	up4.resetMeters(deleted.qers)
